@@ -1,6 +1,11 @@
 """Per-property metadata that MANIFEST.json is generated from."""
 
 ENGINES = [
+    {'name': 'crawler', 'path': 'mc/crawl.py',
+     'serves_properties': ['C01', 'C02', 'C03'],
+     'kind_free_text': 'in-process world (mc/world.py: real Flask app, virtual clock, snapshots) + independent MPD '
+                       'reader (mc/mpd.py) + independent ISO-BMFF reader (mc/bmff.py) + synthetic media writer '
+                       '(mc/synth.py); clock transition system over critical instants'},
     {'name': 'explorer', 'path': 'mc/explorer.py',
      'serves_properties': ['C19', 'C20'],
      'kind_free_text': 'explicit-state BFS over operation histories of the real object (rebuild + replay), '
@@ -37,5 +42,38 @@ CHECKS['C19'] = dict(
          'arithmetic. The spaces are finite and enumerated completely.',
     note='Exactness oracle = mc/iso8601.py + fractions.Fraction; tolerance 0.5 ms + 1 ns for float noise; '
          'timescales > 10^6 cannot round-trip through timedelta (known finding).')
+
+CHECKS['C01'] = dict(
+    engine='crawler',
+    technique='clock x option-vector state exploration through HTTP vs independent 23009-1 availability model',
+    design_ref='DESIGN.md §7 C01',
+    text='For every configuration (7 live templates x option vectors at deviation level 1, level 2 inside the timing '
+         'group, fixture and synthetic streams) the finite set of critical instants of one media loop (every segment '
+         'boundary/mid-point of every track shifted by every window offset, +-1 us, one interior point per gap) is '
+         'visited at several magnitude classes (young stream, 3 loops, 2^32-tick crossing, ~54 years); at each '
+         'instant the manifest is read by an independent MPD reader and every segment it makes addressable '
+         '(5.3.9.5.3 in exact Fractions) plus every init segment is requested at the same virtual instant.',
+    note='Virtual clock seam over datetime.datetime; windows > 64 s fetch the 3 oldest/newest segments per '
+         'Representation; each config visits a rotated stride of its critical instants (counts in evidence).')
+CHECKS['C02'] = dict(
+    engine='crawler',
+    technique='same exploration as C01 with a byte-level oracle (independent ISO-BMFF reader) on every fetched segment',
+    design_ref='DESIGN.md §7 C02',
+    text='Every segment fetched by the C01 exploration (timing-group vectors, synthetic layouts with irregular '
+         'durations / non-zero first decode time / no tfdt, alternative timing references) is decoded by an '
+         'independent box reader: tfdt == $Time$, sum of sample durations == S@d, sequence_number == $Number$, '
+         'nominal-time bound, S entries gapless, and stored position == presentation time modulo the reference '
+         'duration (source segment identified by exact payload match).',
+    note='Payload identity and nesting are judged by C03; tolerance rules are listed in the evidence assumptions.')
+CHECKS['C03'] = dict(
+    engine='crawler',
+    technique='bounded-exhaustive option product (deviation levels) x every stored segment vs independent box walker',
+    design_ref='DESIGN.md §7 C03',
+    text='All vectors of deviation level <= 2 (quick) / <= 3 (thorough) over {drm selection x locations, PlayReady '
+         'version, PIFF, events x schedules, bugs} plus the drm x piff x events x bugs triples, x {vod, live} x '
+         '{number, time} x every segment the manifest enumerates for fixture and synthetic streams (8/16-byte IV, '
+         'with/without sub-samples, explicit base_data_offset, no tfdt, styp/sidx). Each response is strictly '
+         'nested, payload-identical to a stored segment, trun/saio offsets address payload/senc, counts agree.',
+    note='Stored view comes from mc/bmff.py scan of the stored bytes, never from the service index.')
 
 NOT_BUILT = {}
